@@ -53,40 +53,7 @@ theorem findOrAdd_eq_core (i : Nat) (v w : Int) (m : Mgr) (hc : m.ctx = false) :
   have hi : ¬ ((i : Int) < 0) := by omega
   simp [findOrAdd, bind, M.bind', M.get, hc, hi]
 
-/-! ### semantics of a file -/
-
-/-- the variable a node line is labelled with: the one `levels` puts at the level
-that `info2permid` gives to the `info` column -/
-def dddmpVarOf (i2p levels : List (Tok × Int)) (info : Tok) : Option Tok :=
-  match dictGet i2p info with
-  | none => none
-  | some k => (levels.find? (fun p => p.2 = k)).map (·.1)
-
-/-- value of the (signed) node number `x` of a file under the assignment `α` of the
-variable NAMES, read off the node list: a line labelled `T` is the constant true,
-a line `u info _ then else` is `if info then [then] else [else]`, a negative number
-is the complement (an unlisted number or exhausted `fuel` reads as false, complemented
-for a negative number).  `fuel` bounds the depth. -/
-def evalFileF (i2p levels : List (Tok × Int)) (nodes : List DddmpNode) (α : String → Bool) :
-    Nat → Int → Bool
-  | 0, x => decide (x < 0)
-  | fuel + 1, x =>
-    (decide (x < 0)) ^^
-      (match nodes.find? (fun n => n.u = (x.natAbs : Int)) with
-      | none => false
-      | some n =>
-        if n.info = .str "T" then true else
-          match dddmpVarOf i2p levels n.info with
-          | none => false
-          | some var =>
-            if α var.show then evalFileF i2p levels nodes α fuel n.thn
-            else evalFileF i2p levels nodes α fuel n.els)
-
-/-- `evalFileF` with the tables of the file's own header and depth `nvars + 2` -/
-def evalFile (f : DddmpFile) (α : String → Bool) (x : Int) : Bool :=
-  match dddmpHeader f with
-  | .ok (i2p, levels, _) => evalFileF i2p levels f.nodes α ((f.nvars.getD 0 + 2).toNat) x
-  | .error _ => false
+/-! ### assignments of names as assignments of levels -/
 
 /-- assignment of levels induced by an assignment of names, in a manager -/
 def asgOfMap (l2v : TreeMap Nat String) (α : String → Bool) : Asg := fun i =>
